@@ -4,13 +4,13 @@ from collections import Counter
 import common, drv
 from props import c02
 
-THEOREMS = ["equiv_norm3_sound"]
+THEOREMS = ["Spec.min_length_le", "Spec.min_length_with", "Spec.run_conserve", "Spec.refs_le", "Spec.needed_executed", "Spec.exec_of_seen"]
 
 
 def run(tier):
     sd = common.seed()
     rng = random.Random(sd * 733 + 19)
-    po = common.proof_obligations("GasolVerif.Proofs.NormSound", THEOREMS)
+    po = common.proof_obligations("GasolVerif.Proofs.MinLenSound", THEOREMS)
     violations = [{"kind": "broken-proof-obligation", "what": b, "no_failing_input": True, "input": b} for b in po["broken"]]
     import gen
     pinned = set(gen.discount_corpus() + ["DUP3 MLOAD DUP4 MULMOD SWAP2", "DUP3 MLOAD DUP4 ADDMOD SWAP2", "DUP2 MLOAD DUP3 MULMOD"])
@@ -37,6 +37,67 @@ def run(tier):
                 meta.append((t, e, g))
             else:
                 c["no-witness-candidate"] += 1
+    # ---- the published minimum length: Spec.min_length_le says that every realizing sequence has at least `minInstr` instructions when the
+    # executable premises hold; the driver evaluates both on the specification as emitted, and `minInstr` must be the tool's number
+    mreqs, mmeta = [], []
+    for t, r, st in res:
+        if st != "ok" or r is None or "harness_error" in (r or {}) or "parse_exception" in (r or {}):
+            continue
+        for e in r["subs"]:
+            if "unsupported" in e or "bounds" not in e or e["bounds"].get("min_length") is None:
+                continue
+            mreqs.append("MINLEN\t%s" % "\t".join(e["spec"]))
+            mmeta.append((t, e))
+    uncovered = []
+    for o, (t, e) in zip(drv.batch(mreqs), mmeta):
+        b = e["bounds"]
+        f = o.split()
+        if len(f) != 3 or f[0] != "ok":
+            raise common.MachineryError("driver MINLEN: " + o)
+        prem, n = f[1] == "true", int(f[2])
+        c["min_length:specifications"] += 1
+        if not prem:
+            c["min_length:premises-of-the-theorem-not-met"] += 1
+            continue
+        if b["min_length"] <= n:
+            c["min_length:proved (min_length <= minInstr <= every realizing sequence)"] += 1
+            if b.get("min_length_instrs") != n:
+                c["min_length:tool-count-below-model-count"] += 1
+        elif b.get("min_length_instrs") == n:
+            # the other component (position bounds) is the larger one: the theorem does not speak about it
+            c["min_length:position-bound-component-larger (witness only)"] += 1
+        else:
+            uncovered.append((t, e, n))
+    # the count the tool publishes is larger than the one the theorem covers: look for a realizing sequence shorter than the published minimum
+    import itertools as _it
+    ureqs, umeta = [], []
+    for k, (t, e, n) in enumerate(uncovered):
+        b = e["bounds"]
+        ids = [u[0] for u in e["uinstrs"]]
+        sk = max(1, min((b.get("max_sk_sz") or 1) + 1, 6))
+        vocab = ids + ["POP"] + ["DUP%d" % i for i in range(1, sk + 1)] + ["SWAP%d" % i for i in range(1, sk + 1)]
+        top = b["min_length"] - 1
+        if top <= 6 and len(vocab) ** top <= 300000:
+            for L in range(0, top + 1):
+                for seq in _it.product(vocab, repeat=L):
+                    ureqs.append("REALIZES\t%s\t%s" % ("\t".join(e["spec"]), ",".join(seq)))
+                    umeta.append((k, seq))
+    shorter = {}
+    for o, (k, seq) in zip(drv.batch(ureqs), umeta):
+        if o.startswith("ok") and k not in shorter:
+            shorter[k] = seq
+    for k, (t, e, n) in enumerate(uncovered):
+        b = e["bounds"]
+        if k in shorter:
+            violations.append({"kind": "min-length-above-a-realizing-sequence", "input": " ".join(e["plain"]), "options": t["opts"], "spec": e["spec"],
+                               "what": "min_length = %s (min_length_instrs = %s) but %s (length %d) realizes the specification of %s" %
+                                       (b["min_length"], b.get("min_length_instrs"), list(shorter[k]), len(shorter[k]), " ".join(e["plain"]))})
+        else:
+            violations.append({"kind": "min-length-not-covered-by-the-theorem", "input": " ".join(e["plain"]), "options": t["opts"], "spec": e["spec"],
+                               "no_failing_input": True,
+                               "what": "correspondence Models/MinLen.lean <-> count_sms_greedy.minsize_from_json broken for %s (%s): the tool publishes min_length_instrs = %s, "
+                                       "the model counts %d (theorem Spec.min_length_le covers the model's count); no realizing sequence shorter than min_length = %s was found" %
+                                       (" ".join(e["plain"]), t["opts"], b.get("min_length_instrs"), n, b["min_length"])})
     outs = drv.batch(reqs)
     samples = []
     undecided = []
@@ -158,13 +219,21 @@ def run(tier):
                                "spec": e["spec"]})
     cov = {"programs": c["specs"], "disagreements_checked": c["witnesses"], "evaluations": c["specs"],
            "distinct_nontrivial": c["witnesses"], "obligations": po["obligations"], "discharged": po["discharged"],
-           "rule": "specifications from the real front end; the greedy result, once accepted by Spec.realizes, is the witness: "
+           "rule": "specifications from the real front end; min_length: the driver evaluates the premises of Spec.min_length_le and the model's count on the "
+                   "emitted specification, the count must be the tool's min_length_instrs (then every realizing sequence is at least that long, for all "
+                   "sequences); the greedy result, once accepted by Spec.realizes, is the witness: "
                    "init_progr_len and max_sk_sz are feasible when it fits, min_length must not exceed its length, original_instrs must be "
                    "the sub-block; a witness outside the bounds decides nothing (undecided)",
            "samples": samples or [{"n": 0}], "counters": dict(c),
-           "checker_cmd": "gvdrv REALIZES", "trusted_base": ["Spec.realizes", "peak stack as computed by Spec.runIds"]}
+           "axioms": po["axioms"],
+           "checker_cmd": "cd lean && lake build; #print axioms " + ", ".join(THEOREMS) + "; gvdrv MINLEN / REALIZES",
+           "trusted_base": ["Lean 4.33 kernel", "axioms: propext, Classical.choice, Quot.sound", "Spec.realizes (Models/Spec.lean) as the meaning of `realizes`",
+                            "Models/MinLen.lean minInstr as the model of minsize_from_json, tied by equality of the two numbers on every emitted specification",
+                            "peak stack as computed by Spec.runIds", "harness serialisation of the specification (tasks.ser_spec)"]}
     return {"level": "translation_validation", "coverage": cov, "violations": violations,
-            "assumptions": ["existential bounds are decided by witness only; infeasibility is never concluded from a missing witness"]}
+            "assumptions": ["existential bounds are decided by witness only; infeasibility is never concluded from a missing witness",
+                            "the universal clause (min_length <= every realizing sequence) is the kernel-checked theorem Spec.min_length_le, applied per specification after "
+                            "its executable premises were evaluated; where the position-bound component of min_length is the larger one only the witness speaks"]}
 
 
 def replay(v):
